@@ -358,7 +358,30 @@ theorem runR_spec (C : Cfg) (src : Array UInt8) (ok : CfgOK C src) (hn : 13 ≤ 
     cases hs : stepR C src st with
     | fail =>
       dsimp only
-      exact ⟨InvR_tbl C src st hi (Or.inl (by omega)), fun l stf h => by cases h⟩
+      refine ⟨?_, fun l stf h => by cases h⟩
+      have hti0 := InvR_tbl C src st hi (Or.inl (by omega))
+      unfold failTbl
+      cases hp : st.pending with
+      | some m => exact hti0
+      | none =>
+        dsimp only
+        cases hsr : searchR C src (src.size - LZ4V.Gen.MFLIMIT + 1) (src.size + 1) st.ip 1 (C.P.accel <<< LZ4V.Gen.LZ4_skipTrigger) st.tbl with
+        | none => exact hti0
+        | some r =>
+          obtain ⟨ip, m, tbl⟩ := r
+          dsimp only
+          have c1 : LZ4V.Gen.MFLIMIT = 12 := rfl
+          have c6 : LZ4V.Gen.LZ4_skipTrigger = 6 := rfl
+          have hnb : 64 ≤ C.P.accel <<< LZ4V.Gen.LZ4_skipTrigger := by
+            rw [c6, Nat.shiftLeft_eq]
+            have h64 : (2 : Nat) ^ 6 = 64 := by decide
+            have hacc := ok.ha
+            rw [h64]; omega
+          obtain ⟨_, _, i3⟩ := hi
+          rw [hp] at i3
+          dsimp only at i3
+          obtain ⟨s1, s2, _, _, _, s6⟩ := searchR_spec C src ok _ (by rw [c1]; omega) _ _ _ _ _ ip m tbl hsr i3 (Nat.le_refl 1) hnb
+          exact s6.mono (by rw [c1] at s2; omega)
     | last st1 =>
       dsimp only
       obtain ⟨la, lt⟩ := stepR_last C src ok hn st st1 hs (InvR_tbl C src st hi (Or.inl (by omega)))
